@@ -1415,6 +1415,7 @@ func (d *DotGit) rewritePackedRefsWithoutRef(name plumbing.ReferenceName) (err e
 
 	s := bufio.NewScanner(pr)
 	found := false
+	removedPrev := false
 	for s.Scan() {
 		line := s.Text()
 		ref, err := d.processLine(line)
@@ -1424,8 +1425,17 @@ func (d *DotGit) rewritePackedRefsWithoutRef(name plumbing.ReferenceName) (err e
 
 		if ref != nil && ref.Name() == name {
 			found = true
+			removedPrev = true
 			continue
 		}
+
+		// a "^<hash>" line is the peeled value of the entry right before it:
+		// it goes away with that entry, otherwise git would attribute it to
+		// the preceding reference.
+		if removedPrev && strings.HasPrefix(line, "^") {
+			continue
+		}
+		removedPrev = false
 
 		if _, err := fmt.Fprintln(tmp, line); err != nil {
 			return err
